@@ -158,6 +158,27 @@ def function_case(draw, quick):
     return c
 
 
+@st.composite
+def many_haplotypes_case(draw):
+    """More than 128 known haplotypes (int8 haplotype tables, allele numbers beyond 127)."""
+    import itertools
+
+    n_base = 8
+    n_h = draw(st.integers(129, 150))
+    all_h = [list(h) for h in itertools.product([0, 1], repeat=n_base)]
+    order = draw(st.permutations(range(256)))
+    haps = [all_h[i] for i in order[:n_h]]
+    n_reads = draw(st.integers(1, 4))
+    # reads that support high-numbered haplotypes
+    reads = []
+    for _ in range(n_reads):
+        h = haps[draw(st.integers(max(0, n_h - 15), n_h - 1))]
+        p = draw(st.sampled_from([0.9, 0.99]))
+        reads.append([[p if a == h[j] else (1 - p) / 3 for a in range(2)] for j in range(n_base)])
+    return {"kind": "function", "n_alleles": [2] * n_base, "haplotypes": haps, "ploidy": draw(st.sampled_from([1, 2])), "frequencies": None,
+            "inbreeding": draw(st.sampled_from([0.0, 0.25])), "reads": reads, "counts": [draw(st.integers(1, 6)) for _ in range(n_reads)]}
+
+
 def replay(ctx, case):
     if case.get("kind") == "cli":
         from . import c03_cli
@@ -169,6 +190,7 @@ def replay(ctx, case):
 def run(ctx):
     q = ctx.quick
     ctx.hyp("function", function_case(q), check_function, 400 if q else 3000)
+    ctx.hyp("many_haplotypes", many_haplotypes_case(), check_function, 4 if q else 20)
     try:
         from . import c03_cli
     except ImportError:
